@@ -95,7 +95,9 @@ class Enum:
     def unary(self, e):
         sh = self.shape(e); nd = len(sh); n = self.n
         F = self.dtype == float
-        T = [lambda: ev.Negative(e), lambda: ev.Absolute(e), lambda: ev.Sign(e)]
+        T = [lambda: ev.Negative(e), lambda: ev.Absolute(e), lambda: ev.Sign(e),
+             lambda: ev.negative(e),   # what the library's unary minus builds: Multiply(e, -1)
+             lambda: ev.Multiply(types.frozenmultiset([e, const(numpy.full(sh, 2, dtype=self.dtype))]))]
         for p in ([2., 3., 4., .5, .25, .125, 1.5, -1., -2.] if F else [0, 1, 2, 3]):
             T.append(lambda p=p: ev.Power(e, const(numpy.full(sh, p, dtype=self.dtype))))
         if nd >= 1:
@@ -171,6 +173,24 @@ class Enum:
                         seen.add(id(o)); out.append(o)
         self.rng.shuffle(out)
         return out[:cap]
+
+    def core(self):
+        """deterministic, exhaustive 'algebraic core': t = op(u, leaf) for every unary variant u of a leaf and every leaf of
+        the same shape, combined (Add / Multiply) with every operand / leaf it is built from.  Covers x*y+x, (-x)*y+x,
+        f(x)+f(y)-type interactions of the _add / _multiply rules without sampling."""
+        level1 = [o for leaf in self.leaves for o in self.unary(leaf)]
+        out, seen = [], set()
+        for u in level1:
+            sh = self.shape(u)
+            for leaf in self.leaves:
+                if self.shape(leaf) != sh: continue
+                for t in self.binary(u, leaf)[:2]:
+                    partners = [u, leaf] + [c for c in _operands(u) if self.shape(c) == sh]
+                    for p_ in partners:
+                        for o in self.binary(t, p_)[:2]:
+                            if id(o) not in seen:
+                                seen.add(id(o)); out.append(o)
+        return out
 
     def levels(self, nlevels, cap):
         """returns list of lists of trees per level"""
